@@ -28,6 +28,14 @@
 #define E_DebugError 18
 /* length in bytes of the smallest unsigned integer class holding v (docs/format.md, Integer Encoding Class) */
 #define VT_LEN_UINT(v) ((v) <= 0x7fUL ? 1UL : (v) <= 0xffUL ? 2UL : (v) <= 0xffffUL ? 3UL : (v) <= 0xffffffffUL ? 5UL : 9UL)
+/* integer classes per docs/format.md; prefix constants come from fmt_prefix.h (generated from the document) */
+#include "fmt_prefix.h"
+#define VT_PREFIX_UINT(v) ((v) <= 0x7fUL ? (unsigned char)(v) : (v) <= 0xffUL ? FMT_U8 : (v) <= 0xffffUL ? FMT_U16 : (v) <= 0xffffffffUL ? FMT_U32 : FMT_U64)
+#define VT_PREFIX_INT(v) (((v) >= -64 && (v) <= 127) ? (unsigned char)(v) : ((v) >= -128 && (v) <= 127) ? FMT_I8 : ((v) >= -32768 && (v) <= 32767) ? FMT_I16 : ((v) >= -2147483648L && (v) <= 2147483647L) ? FMT_I32 : FMT_I64)
+#define VT_LEN_INT(v) (((v) >= -64 && (v) <= 127) ? 1UL : ((v) >= -128 && (v) <= 127) ? 2UL : ((v) >= -32768 && (v) <= 32767) ? 3UL : ((v) >= -2147483648L && (v) <= 2147483647L) ? 5UL : 9UL)
+/* acceptance sets: POS plus the unsigned classes up to `bytes`; POS, NEG plus the signed classes up to `bytes` */
+#define VT_MATCH_UINT(p, bytes) ((p) <= FMT_POS_MAX || (p) == FMT_U8 || ((bytes) >= 2 && (p) == FMT_U16) || ((bytes) >= 4 && (p) == FMT_U32) || ((bytes) >= 8 && (p) == FMT_U64))
+#define VT_MATCH_INT(p, bytes) ((p) <= FMT_POS_MAX || (p) >= FMT_NEG_MIN || (p) == FMT_I8 || ((bytes) >= 2 && (p) == FMT_I16) || ((bytes) >= 4 && (p) == FMT_I32) || ((bytes) >= 8 && (p) == FMT_I64))
 /* ghost index used instead of quantifiers over byte ranges (fixed but arbitrary) */
 unsigned long vt_k;
 #endif
